@@ -33,7 +33,22 @@ type Env struct {
 }
 
 func (fr *Frame) newEnv(st, old *State) *Env {
-	return &Env{vc: fr.vc, fr: fr, names: map[string]TV{}, st: st, old: old, pkg: fr.vc.pkg, bound: map[string]TV{}}
+	env := &Env{vc: fr.vc, fr: fr, names: map[string]TV{}, st: st, old: old, pkg: fr.vc.pkg, bound: map[string]TV{}}
+	if fr.fn != nil && len(fr.fn.FreeVars) > 0 {
+		env.resolve = fr.fvResolve
+	}
+	return env
+}
+
+// fvResolve resolves the captured variables of a closure by name.
+func (fr *Frame) fvResolve(name string, st *State) (TV, bool) {
+	for _, fv := range fr.fn.FreeVars {
+		if fv.Name() == name {
+			l := fr.locOf(st, "true", fv, false, token.NoPos)
+			return TV{term: fr.load(st, l), typ: l.resultType(), loc: l}, true
+		}
+	}
+	return TV{}, false
 }
 
 // newEnvAt: environment for assertions at a program point of the top-level function.
@@ -838,6 +853,14 @@ func (e *Env) evalCall(n ECall, hint types.Type) TV {
 			e.fail("typeis(x, T)")
 		}
 		return TV{term: eq(fmt.Sprintf("(ityp %s)", a.term), fmt.Sprint(vc.typeID(tt.isType))), typ: bt}
+	case "ptr":
+		// ptr(x, T): reinterpret the reference x (mathint) as *T
+		a := e.eval(n.Args[0], nil)
+		tt := e.eval(n.Args[1], nil)
+		if tt.isType == nil {
+			e.fail("ptr(x, T)")
+		}
+		return TV{term: a.term, typ: types.NewPointer(tt.isType)}
 	case "asptr":
 		// asptr(x, T): the value of interface x asserted to *T
 		a := e.eval(n.Args[0], nil)
